@@ -245,6 +245,9 @@ def main(argv=None):
     ap.add_argument("--jobs", type=int, default=int(
         os.environ.get("VERIF_JOBS", "16")))
     ap.add_argument("--no-evidence", action="store_true")
+    ap.add_argument("--no-regressions", action="store_true",
+                    help="sensitivity testing: skip the saved regression "
+                         "cases so only generated search can catch a break")
     args = ap.parse_args(argv)
     pid = args.pid.upper()
     seed = int(os.environ.get("VERIF_SEED", "1") or 1)
@@ -320,7 +323,7 @@ def run_checks(mod, pid, args, seed, t0):
     # --- regression tier: saved cases of fixed defects and caught mutants
     regdir = os.path.join(HERE, "regressions", pid)
     nreg = 0
-    if os.path.isdir(regdir):
+    if os.path.isdir(regdir) and not args.no_regressions:
         for name in sorted(os.listdir(regdir)):
             if not name.endswith(".json"):
                 continue
